@@ -292,7 +292,7 @@ func (cc c05Chain) build() *rux.Router {
 }
 
 func runC05(e *Env) {
-	e.Rule = "chains global+group+route middleware+main built through Use (one or several calls), Group middleware, variadic route middleware and Route.Use; exhaustive: every chain length 1..L (L=7 quick, 9 thorough) x every position of the aborting handler x {Abort, AbortThen, AbortWithStatus(code), AbortWithStatus(code,msg), code incl. 200, optionally after the first handler recorded another status without committing} x abort before/after/without its own Next() x extra Next() after the abort x every subset of the other handlers calling/not calling Next() x body byte written before the abort or not; sampled: long chains with totals around 31..33, 61..66 and 126..140 (beyond 63 through global middleware) and random behaviours (incl. double Next); after every aborted request a second request on the same router in which nobody aborts. Observed: enter/leave/abort events and IsAborted() sampled at entry, before/after the abort call and at leave of every handler, status/body at the recording writer. Oracle: specification-level interpreter of Next/Abort. Non-trivial: every case (each has an abort); distinct by chain description. Sampled chains may run behind an uninstrumented recover middleware and/or a buffering middleware that replaced c.Resp, or on a writer whose first body write fails, or behind pkg/handlers.Timeout(1h). Part mounted: the chain ends in a rux sub-router / HandlerFunc mounted through WrapH (it records a status or nothing, writes nothing, may abort its own context) and a middleware aborts with a status after its Next(). Re-dispatch part: a handler hands the context to the router again (HandleContext) and a handler of that inner chain aborts; then, on the same router, a request aborts in a middleware and the router serves another request inside that middleware before the first goes on (its abort must stand, it must keep its own context); and a handler that calls AbortWithStatus and then re-dispatches to a route that only writes a body (the status stands)."
+	e.Rule = "chains global+group+route middleware+main built through Use (one or several calls), Group middleware, variadic route middleware and Route.Use; exhaustive: every chain length 1..L (L=7 quick, 9 thorough) x every position of the aborting handler x {Abort, AbortThen, AbortWithStatus(code), AbortWithStatus(code,msg), code incl. 200, optionally after the first handler recorded another status without committing} x abort before/after/without its own Next() x extra Next() after the abort x every subset of the other handlers calling/not calling Next() x body byte written before the abort or not; sampled: long chains with totals around 31..33, 61..66 and 126..140 (beyond 63 through global middleware) and random behaviours (incl. double Next); after every aborted request a second request on the same router in which nobody aborts. Observed: enter/leave/abort events and IsAborted() sampled at entry, before/after the abort call and at leave of every handler, status/body at the recording writer. Oracle: specification-level interpreter of Next/Abort. Non-trivial: every case (each has an abort); distinct by chain description. Sampled chains may run behind an uninstrumented recover middleware and/or a buffering middleware that replaced c.Resp, or on a writer whose first body write fails, or behind pkg/handlers.Timeout(1h). Part unroutable: a global middleware aborts a request that only the router's built-in 404/405 answer would serve (that answer must not run). Part mounted: the chain ends in a rux sub-router / HandlerFunc mounted through WrapH (it records a status or nothing, writes nothing, may abort its own context) and a middleware aborts with a status after its Next(). Re-dispatch part: a handler hands the context to the router again (HandleContext) and a handler of that inner chain aborts; then, on the same router, a request aborts in a middleware and the router serves another request inside that middleware before the first goes on (its abort must stand, it must keep its own context); and a handler that calls AbortWithStatus and then re-dispatches to a route that only writes a body (the status stands)."
 	e.Assumptions = []string{
 		"a route's own chain (group + route middleware + main handler) stays within the registration limit of 63; global middleware, which that limit does not count, makes executed chains of up to 140 entries",
 	}
@@ -455,6 +455,8 @@ func runC05(e *Env) {
 	e.RunCases("redispatch-abort", e.N(1500, 100000), 0, c05Redispatch)
 	e.RunCases("mounted", e.N(600, 20000), 0, c05Mounted)
 	e.Require("mounted.checked", 500)
+	e.RunCases("unroutable", e.N(600, 20000), 0, c05Unroutable)
+	e.Require("unroutable.checked", 500)
 	e.Require("redispatch.checked", 1000)
 	e.Require("abort.before_next", 1000)
 	e.Require("abort.after_next", 1000)
@@ -930,5 +932,83 @@ func c05Mounted(t *T) {
 	}
 	if rec.Status() != code || rec.NumWH() != 1 || rec.Body.String() != wantBody {
 		t.Fail("abort-status-not-applied-behind-mounted-handler", "the mounted %s recorded status %d and wrote nothing; o%d then called AbortWithStatus(%d%s): expected exactly one WriteHeader(%d) and body %q, the writer saw %s", kind, innerStatus, ab, code, map[bool]string{true: ", \"denied\"", false: ""}[withMsg], code, wantBody, rec.CallLog())
+	}
+}
+
+
+// c05Unroutable: the request matches no route (404) or only routes of other methods (405 handling on) and the
+// router's built-in answers are in charge; a GLOBAL middleware aborts before anything is written. The built-in
+// answer is the last handler of that chain like any other: it must not run after the abort.
+func c05Unroutable(t *T) {
+	r := t.R
+	nG := 1 + r.IntN(3)
+	ab := r.IntN(nG)
+	kind := pick(r, []string{"Abort", "AbortThen", "AbortWithStatus"})
+	code := pick(r, []int{401, 403, 200, 503})
+	case405 := chance(r, 1, 2)
+	method, path := "GET", "/no/such/page"
+	if case405 {
+		method, path = pick(r, []string{"POST", "DELETE", "OPTIONS"}), "/only-get"
+	}
+	t.Describe(func() any {
+		return map[string]any{"global_middleware": nG, "aborting": ab, "abort": kind, "status": code, "request": method + " " + path, "method_not_allowed_handling": case405}
+	})
+	t.AutoSample()
+	var opts []func(*rux.Router)
+	if case405 {
+		opts = append(opts, rux.HandleMethodNotAllowed)
+	}
+	router := rux.New(opts...)
+	for i := 0; i < nG; i++ {
+		i := i
+		router.Use(func(c *rux.Context) {
+			rec := recOf(c)
+			rec.Ev("enter(g%d)", i)
+			if i == ab {
+				switch kind {
+				case "Abort":
+					c.Abort()
+				case "AbortThen":
+					c.AbortThen()
+				default:
+					c.AbortWithStatus(code)
+				}
+				rec.Ev("abort(g%d) aborted=%v", i, c.IsAborted())
+				if chance(r, 1, 2) {
+					c.Next()
+				}
+			} else {
+				c.Next()
+			}
+			rec.Ev("leave(g%d) aborted=%v", i, c.IsAborted())
+		})
+	}
+	router.GET("/only-get", func(c *rux.Context) { recOf(c).Ev("enter(main)"); c.WriteString("main") })
+	rec, pv, panicked := Serve(router, NewReq(method, path))
+	if panicked {
+		t.Fail("servehttp-panic", "an aborted unroutable request panicked: %v", pv)
+		return
+	}
+	var want []string
+	for i := 0; i <= ab; i++ {
+		want = append(want, fmt.Sprintf("enter(g%d)", i))
+	}
+	want = append(want, fmt.Sprintf("abort(g%d) aborted=true", ab))
+	for i := ab; i >= 0; i-- {
+		want = append(want, fmt.Sprintf("leave(g%d) aborted=true", i))
+	}
+	t.Count("unroutable.checked", 1)
+	t.NonTrivial(fmt.Sprint(nG, ab, kind, code, method, path))
+	t.Tracef("trace %s; writer %s; Allow %q", strings.Join(rec.Events, " "), rec.CallLog(), rec.H.Get("Allow"))
+	if !eventsEqual(want, rec.Events) {
+		t.Fail("unroutable-trace", "%s %s with %d global middleware, g%d calls %s:\n expected trace: %s\n observed trace: %s", method, path, nG, ab, kind, strings.Join(want, " "), strings.Join(rec.Events, " "))
+		return
+	}
+	wantStatus := 200 // nothing recorded: the default at the end of the request
+	if kind == "AbortWithStatus" {
+		wantStatus = code
+	}
+	if rec.Status() != wantStatus || rec.NumWH() != 1 || rec.Body.Len() != 0 || rec.H.Get("Allow") != "" {
+		t.Fail("built-in-answer-after-abort", "%s %s, g%d calls %s(%d) before anything is written: the router's built-in 404/405 answer is the last handler of that chain and must not run; expected exactly one WriteHeader(%d), no body, no Allow header; the writer saw %s, body %q, Allow %q", method, path, ab, kind, code, wantStatus, rec.CallLog(), rec.Body.String(), rec.H.Get("Allow"))
 	}
 }
